@@ -1437,6 +1437,7 @@ class Tree(_MutableMappingMixin, _Tree):
             sorted((v, k) for (k, v) in self.iteritems() if v >= min))
 
     def insert(self, key, value):
+        key, value = self._to_key(key), self._to_value(value)
         return bool(self._set(key, value, True)[0])
 
 
